@@ -57,7 +57,11 @@ claim("C16",
       "Trusted base: go/ssa's translation; the standard-library behaviour table (checker/e2.go extBehaviourOf; unlisted callees are treated as aliasing and writing everything); strings and function values are immutable; user-supplied PrivateRdata/TsigProvider/crypto.Signer/Handler implementations are outside the module; reflection only in the read-only accessors Field/NumField (asserted).",
       "interprocedural may-alias / may-write abstract interpretation (roots x contents x summaries), proof obligations per function", cat="proof")
 
+claim("C07",
+      "Static, all paths of scan.go/generate.go: file opening only in the $INCLUDE state behind includeAllowed and the depth limit (who-may-call over the whole package), gate fields written only by the setter and gated sub-parser creation, $GENERATE range guard / nested ban / sub-parser flag / wrap-around stop / offset guard, sticky parser and lexer errors with every (_, false) return classified, an inductive (coinductive) proof that every store into the hand-grown token and comment buffers is in bounds, error positions. Termination and memory proportional to the input for all byte strings and the absence of other panics are not decided.",
+      STATIC_NOTE, "who-may-call, SSA edge-dominance, interval facts, inductive index/length relation prover over phis")
+
 _pending = "rules for this property are designed (DESIGN.md §4) but not implemented yet; not claimed until they run"
-for p in ["C02","C03","C05","C06","C07"]:
+for p in ["C02","C03","C05","C06"]:
     na(p, _pending)
 na("C19", "every clause is an equality between index arithmetic on a runtime string and its label sequence; no pairing/ownership/ordering/table structure to decide statically (DESIGN.md §8)")
